@@ -17,6 +17,16 @@ CLAIMED = {
             "Trusted: TLC, the Go concretiser (serialises patterns/origins from components), ACAO==Origin as the observable of "
             "'allowed'. Bounded: <=2 (quick) / <=3 (thorough) patterns over 72 abstract patterns x 84 probes; random lists beyond.",
             "DESIGN.md 4.1, 4.2, 7/C01"),
+    "C02": ("model_checking",
+            "TLC model checking of Cors.tla x Browser.tla (Fetch algorithms) against Permits + TLC trace validation: Fetch algorithms evaluated by TLC on responses recorded from the real middleware",
+            "TLC checks on the model of the request-handling function that, for every abstract configuration x intent x debug x "
+            "tolerated perturbation, the Fetch browser's verdict equals Permits (negative twins rejected). Then seeded "
+            "configurations (spelled in randomised equivalent ways) and browser intents are run against the real middleware; "
+            "TLC runs the Fetch CORS-preflight fetch / CORS check on the RECORDED real responses and compares with Permits, with "
+            "origin membership decided by Origins!Allowed.",
+            "Trusted: TLC, the Go concretiser/tokeniser, the reading of Fetch + PNA draft in Browser.tla. Sampled, not exhaustive, "
+            "on the concrete side (30k cells quick / 400k thorough).",
+            "DESIGN.md 4.6, 7/C02"),
 }
 
 NOT_YET = "check not built yet in this round (planned, see DESIGN.md section 7)"
